@@ -45,6 +45,10 @@ def patch_connection():
         return
     C._verif_patched = True
 
+    def tag(conn):
+        # events of a second connection / API object of the same process (its URL ends in "port2") are tagged
+        return {"dev": 2} if str(getattr(conn, "_port", "")).endswith("port2") else {}
+
     def wrap(name, opf):
         orig = getattr(C, name)
 
@@ -53,7 +57,7 @@ def patch_connection():
             if s is None or s.finished or getattr(self, "_verif_mute", False):
                 return orig(self, *a, **k)
             role = s.cur.role if s.cur else "?"
-            ev = s.emit("call", op=opf(self, *a, **k), ctx=f"api@{role}" + ("-final" if getattr(self, "_verif_final", False) else ""))
+            ev = s.emit("call", op=opf(self, *a, **k), ctx=f"api@{role}" + ("-final" if getattr(self, "_verif_final", False) else ""), **tag(self))
             exc = None
             try:
                 return orig(self, *a, **k)
@@ -64,7 +68,7 @@ def patch_connection():
                 raise
             finally:
                 if sched.S is s and not s.finished:
-                    s.emit("ret", call=ev["seq"], op=ev["op"], ctx=ev["ctx"], exc=type(exc).__name__ if exc else None, msg=str(exc)[:200] if exc else None, res=None)
+                    s.emit("ret", call=ev["seq"], op=ev["op"], ctx=ev["ctx"], exc=type(exc).__name__ if exc else None, msg=str(exc)[:200] if exc else None, res=None, **tag(self))
         setattr(C, name, w)
 
     wrap("put", lambda self, s, f, v: ["put", f"{s}", f, v])
@@ -86,30 +90,30 @@ def patch_connection():
         s = sched.S
         n, key = cbid(cb)
         if key not in _wrappers:
-            def wrapper(status, su, fn, val, _cb=cb, _n=n):
+            def wrapper(status, su, fn, val, _cb=cb, _n=n, _tag=tag(self)):
                 s2 = sched.S
                 if s2 is not None and not s2.finished:
-                    s2.emit("msg_cb", cb=_n, status=status.name, su=su, fn=fn, val=val)
+                    s2.emit("msg_cb", cb=_n, status=status.name, su=su, fn=fn, val=val, **_tag)
                 try:
                     return _cb(status, su, fn, val)
                 finally:
                     if sched.S is s2 and s2 is not None and not s2.finished:
-                        s2.emit("msg_cb_ret", cb=_n)
+                        s2.emit("msg_cb_ret", cb=_n, **_tag)
             _wrappers[key] = wrapper
         if s is not None and not s.finished:
-            ev = s.emit("call", op=["reg", n], ctx=f"api@{s.cur.role if s.cur else '?'}")
+            ev = s.emit("call", op=["reg", n], ctx=f"api@{s.cur.role if s.cur else '?'}", **tag(self))
         orig_reg(self, _wrappers[key])
         if s is not None and not s.finished:
-            s.emit("ret", call=ev["seq"], op=["reg", n], ctx=ev["ctx"], exc=None, msg=None, res=None)
+            s.emit("ret", call=ev["seq"], op=["reg", n], ctx=ev["ctx"], exc=None, msg=None, res=None, **tag(self))
 
     def unreg(self, cb):
         s = sched.S
         n, key = cbid(cb)
         if s is not None and not s.finished:
-            ev = s.emit("call", op=["unreg", n], ctx=f"api@{s.cur.role if s.cur else '?'}")
+            ev = s.emit("call", op=["unreg", n], ctx=f"api@{s.cur.role if s.cur else '?'}", **tag(self))
         orig_unreg(self, _wrappers.get(key, cb))
         if s is not None and not s.finished:
-            s.emit("ret", call=ev["seq"], op=["unreg", n], ctx=ev["ctx"], exc=None, msg=None, res=None)
+            s.emit("ret", call=ev["seq"], op=["unreg", n], ctx=ev["ctx"], exc=None, msg=None, res=None, **tag(self))
 
     C.register_message_callback = reg
     C.unregister_message_callback = unreg
@@ -218,6 +222,24 @@ class ApiSession:
                 exc = e
             api.emit("api_ret", call=ev["seq"], op="initialize", exc=type(exc).__name__ if exc else None, msg=str(exc)[:200] if exc else None,
                      state=self.dump_api(a), conn_none=a._connection is None)
+            if spec.get("other_device"):
+                # afterwards ANOTHER YncaApi object of the same process is initialised against another (healthy) receiver: that is nobody's
+                # business but its own — the first object's state is looked at again
+                b = ynca.YncaApi("virtual://port2", None, 0)
+                exc_b = None
+                try:
+                    b.initialize()
+                except sched.Hang:
+                    raise
+                except BaseException as e:  # noqa: BLE001
+                    exc_b = e
+                api.emit("other_api", exc=type(exc_b).__name__ if exc_b else None, other_state=sorted(self.dump_api(b)), state=self.dump_api(a))
+                try:
+                    b.close()
+                except sched.Hang:
+                    raise
+                except BaseException:  # noqa: BLE001
+                    pass
             for op in spec.get("after", []):
                 if op[0] == "sleep":
                     api.sleep(op[1])
